@@ -10,6 +10,9 @@ Decided clauses (narrow): the channels are different code that must funnel into 
          without passing del_clash_mark (taint)
   C05.c  dotted and nested spellings address the same leaf: Namespace(dict) and the
          object channel expand nested mappings key by key through Namespace item assignment
+  C05.d  every JSON number is a number for the yaml loader (regular-language inclusion)
+  C05.e  a text accepted under a normalisation (x.lower() in {...}) is interpreted under
+         the same normalisation
 Not decided: equality of results across channels for all values; loader equivalence
 across parser modes.
 """
@@ -239,6 +242,42 @@ def run(ctx: Ctx) -> int:
     conv = [s for s in walk_local(aa) if isinstance(s, ast.Assign) and isinstance(s.value, ast.Call) and call_leaf(s.value) == "Namespace" and s.value.args and root_name(s.value.args[0]) in ("cfg", "value")]
     ok = len(conv) >= 2
     ctx.oblige("C05.c", ok, conv[0] if conv else aa, "the object channel converts nested dicts to namespaces level by level before applying actions" if ok else "_apply_actions no longer expands nested dicts", fn=aa, construct="nested dict expansion")
+
+    # ---------------- C05.e: spelling-insensitive acceptance is decided on the spelling that was accepted ----
+    # channels hand the same setting over in different forms (the yaml loader turns `True` into a bool, argv and
+    # the environment pass the text "True"): where a text is accepted under a normalisation (x.lower() in {...})
+    # every later membership test that interprets it must use the same normalisation
+    def _member_tests(node):
+        out = []
+        for cmp_ in [n_ for n_ in ast.walk(node) if isinstance(n_, ast.Compare) and len(n_.ops) == 1 and isinstance(n_.ops[0], (ast.In, ast.NotIn))]:
+            comp = cmp_.comparators[0]
+            if isinstance(comp, (ast.Set, ast.Tuple, ast.List)) and comp.elts and all(isinstance(e, ast.Constant) and isinstance(e.value, str) for e in comp.elts):
+                out.append((cmp_, cmp_.left, {e.value for e in comp.elts}))
+        return out
+
+    n_norm = 0
+    for fq, fn in ctx.repo.all_funcs():
+        for iff in [n_ for n_ in walk_local(fn) if isinstance(n_, ast.If)]:
+            for _, gl_, gs_ in _member_tests(iff.test):
+                if not (isinstance(gl_, ast.Call) and call_leaf(gl_) in ("lower", "upper", "casefold", "strip") and isinstance(gl_.func, ast.Attribute)):
+                    continue
+                base = ast.unparse(gl_.func.value)
+                for b in iff.body:
+                    for cmp2, l2, s2 in _member_tests(b):
+                        if not (s2 <= gs_):
+                            continue
+                        if ast.unparse(l2) != base and ast.unparse(l2) != ast.unparse(gl_):
+                            continue
+                        n_norm += 1
+                        ok = ast.unparse(l2) == ast.unparse(gl_)
+                        ctx.oblige(
+                            "C05.e",
+                            ok,
+                            cmp2,
+                            f"the accepted text is interpreted under the same normalisation it was accepted under (`{ast.unparse(gl_)}`)" if ok else f"the text is accepted under `{ast.unparse(gl_)}` but interpreted as `{ast.unparse(l2)}`: `True`/`Yes` given as text (argv, environment, parse_object) is accepted and read as false, while the same word in a YAML file is read as true",
+                            fn=fn,
+                        )
+    ctx.floor("C05.e-normalised-membership", n_norm, 1)
 
     return ctx.finish(
         explanation=(
